@@ -277,7 +277,11 @@ def run_history(ctx, items, plan, mode, case):
         # palettes obtained from the configuration now reflect its current state
         for pcls, accessors, synced in palettes:
             try:
-                p = pcls(synced=True) if synced else pcls(conf, mode == "no_color")
+                if isinstance(pcls, tuple):
+                    # (compound palette class, sub-palette class): the sub-palette is obtained through the compound one
+                    p = pcls[0](conf, mode == "no_color").get_sub_palette(pcls[1])
+                else:
+                    p = pcls(synced=True) if synced else pcls(conf, mode == "no_color")
             except Exception as err:
                 fail("palette-construction-raises", {"type": type(err).__name__, "msg": str(err)[:150]})
             for acc, sid in accessors.items():
@@ -335,13 +339,24 @@ def run_history(ctx, items, plan, mode, case):
                     accessors = {"a%d" % k: sid for k, sid in enumerate(batch)}
                     body = {"SYNTAX_DEFAULTS": nest(new) if kind == "palette-nested" else dict(new)}
                     body.update({acc: ConfColor(sid) for acc, sid in accessors.items()})
-                    pcls = type("VfPalette%d" % _UNIQ[0], (Palette,), body)
                     synced = mode == "global" and kind == "palette-synced"
-                    if synced:
-                        pcls(synced=True)
+                    if kind == "palette-child":
+                        # the defaults live in a parent palette class that is never instantiated itself
+                        parent = type("VfParentPalette%d" % _UNIQ[0], (Palette,), {"SYNTAX_DEFAULTS": dict(new)})
+                        body = {"PARENT_PALETTES": [parent]}
+                        body.update({acc: ConfColor(sid) for acc, sid in accessors.items()})
+                    pcls = type("VfPalette%d" % _UNIQ[0], (Palette,), body)
+                    if kind == "palette-compound":
+                        # ... or in a palette class that is only reached as a sub-palette of a compound palette
+                        comp = type("VfCompound%d" % _UNIQ[0], (akcolor.CompoundPalette,), {"SUB_PALETTES_MAP": {}})
+                        comp(conf, mode == "no_color").get_sub_palette(pcls)
+                        palettes.append(((comp, pcls), accessors, False))
                     else:
-                        pcls(conf, mode == "no_color")
-                    palettes.append((pcls, accessors, synced))
+                        if synced:
+                            pcls(synced=True)
+                        else:
+                            pcls(conf, mode == "no_color")
+                        palettes.append((pcls, accessors, synced))
             except Stop:
                 raise
             except Exception as err:
@@ -384,7 +399,8 @@ def run_history(ctx, items, plan, mode, case):
             registry = getattr(akcolor, '_GSYNCED_PALETTES', None)
             if isinstance(registry, dict):
                 for pcls, _acc, _synced in palettes:
-                    registry.pop(pcls, None)
+                    if not isinstance(pcls, tuple):
+                        registry.pop(pcls, None)
             akcolor.set_global_colors_config(None)
     if nontrivial:
         ctx.nontrivial(sig_of([{k: v['descr'] for k, v in items.items()}, plan]))
@@ -402,7 +418,8 @@ def make_plan(rng, items, mode):
     while rest:
         m = rng.randint(1, len(rest))
         batch, rest = rest[:m], rest[m:]
-        kinds = ["add", "add", "palette", "palette-nested"] + (["palette-synced"] * 3 if mode == "global" else [])
+        kinds = ["add", "add", "palette", "palette-nested", "palette-child", "palette-compound"] + (
+            ["palette-synced"] * 3 if mode == "global" else [])
         conflicts = rng.sample(sorted(items), min(2, len(items)))
         batches.append([rng.choice(kinds), batch, conflicts])
     for i in late:
